@@ -35,7 +35,7 @@ NT_FLOOR = 0.3
 @st.composite
 def program_st(draw, seed_pool, like=None):
     nps = gen.ALL_NP if like is None else [like["np"][0] if like["np"] else None]
-    cfg = draw(gen.config_st(nps=nps, arm_kinds=("int", "str", "float", "mix"), max_arms=4, with_binarizer=True, scale_ok=True,
+    cfg = draw(gen.config_st(metrics=gen.SAFE_METRICS, nps=nps, arm_kinds=("int", "str", "float", "mix"), max_arms=4, with_binarizer=True, scale_ok=True,
                              defaults_ok=True, seeds=st.sampled_from(seed_pool), n_jobs_choices=(1, 1, 1, 1, 2)))
     if like is not None and like["np"] is not None:
         # same neighbourhood policy arguments as the first program: state shared between instances of one class
@@ -227,7 +227,7 @@ def minimize_xproc(plan, fails):
 @st.composite
 def hash_program_st(draw):
     nps = [None, None, None, None, "Radius", "KNearest", "LSHNearest", "Clusters", "TreeBandit"]
-    cfg = draw(gen.config_st(nps=nps, arm_kinds=("str",), min_arms=3, max_arms=6, with_binarizer=True, scale_ok=True,
+    cfg = draw(gen.config_st(metrics=gen.SAFE_METRICS, nps=nps, arm_kinds=("str",), min_arms=3, max_arms=6, with_binarizer=True, scale_ok=True,
                              defaults_ok=True))
     if draw(st.integers(0, 3)) == 0 and not (cfg["np"] and cfg["np"][0] == "TreeBandit"):
         # work handed to other interpreters (process-based joblib backends): each worker process has its own string
